@@ -37,7 +37,8 @@ struct Stats
 	std::unordered_set<uint64_t> ntHashes;
 	std::map<std::string, long> classes;
 	std::map<std::string, long> foreign;
-	std::vector<std::pair<std::string, std::string> > samples; // (program, trace)
+	std::vector<std::pair<std::string, std::string> > samples; // (program, trace) of non-trivial cases
+	std::vector<std::pair<std::string, std::string> > fallback; // first cases of the run, used when no non-trivial sample exists
 	std::chrono::steady_clock::time_point start = std::chrono::steady_clock::now();
 };
 Stats g_stats;
@@ -204,6 +205,7 @@ bool runCase(const Program & p, bool shrinking)
 		++g_stats.evaluations;
 		g_stats.subEvaluations += v.subEvaluations > 0 ? v.subEvaluations : 1;
 		for(const char * c : v.classes) ++g_stats.classes[c];
+		if(g_stats.fallback.size() < 2) g_stats.fallback.push_back(std::make_pair(text, v.trace));
 		if(v.nontrivial) {
 			++g_stats.nontrivial;
 			uint64_t h = fnv1a(toText(p));
@@ -262,7 +264,7 @@ void writeStats()
 	}
 	fprintf(f, "},\n\"samples\":[");
 	first = true;
-	for(const auto & s : g_stats.samples) {
+	for(const auto & s : (g_stats.samples.empty() ? g_stats.fallback : g_stats.samples)) {
 		fprintf(f, "%s{\"program\":\"%s\",\"trace\":\"%s\"}", first ? "" : ",",
 			jsonEscape(s.first).c_str(), jsonEscape(s.second.size() > 4000 ? s.second.substr(0, 4000) + "..." : s.second).c_str());
 		first = false;
